@@ -116,6 +116,14 @@ MUTANTS = [
     ("c01-digitize-default-bins", "C01", "scoda/misc/util.py", "return np.digitize(velocity, bins, right=True).item(-1)", "return np.digitize(velocity, get_velocity_bins(), right=True).item(-1)", {"DIGITIZE"}),
     ("c02-bins-not-deduplicated", "C02", TOKF, "self.velocity_bins = sorted({int(velocity_bin) for velocity_bin in get_velocity_bins(velocity_bins=velocity_bins)})",
      "self.velocity_bins = [int(velocity_bin) for velocity_bin in get_velocity_bins(velocity_bins=velocity_bins)]", {"DISTINCT"}),
+    ("c09-name-bound-nowhere", "C09", SEQ, "        tracks_bars = [[] for _ in sequences]\n", "", {"UNDEF"}),
+    ("c07-cleanup-guard-negated", "C07", REL, "                    if msg in messages_normalized:\n                        messages_normalized.remove(msg)", "                    if msg not in messages_normalized:\n                        messages_normalized.remove(msg)", {"STACK"}),
+    ("c07-cleanup-walks-stale-list", "C07", REL, "                note_list = open_messages[channel].get(key, [])\n                for msg in note_list:", "                for msg in note_list:", {"STACK"}),
+    ("c12-wait-time-not-accumulated", "C12", MTR, "                time_buffer += msg.time\n", "                pass\n", {"ACC2"}),
+    ("c18-scale-guard-above-two", "C18", REL, "        if factor > 1:\n            for msg in self._messages:", "        if factor > 2:\n            for msg in self._messages:", {"SCALE"}),
+    ("c02-strip-two-characters", "C02", TOKF, "            token = token[:-1]\n\n            self.dictionary[token]", "            token = token[:-2]\n\n            self.dictionary[token]", {"TPL1"}),
+    ("c06-next-note-filter-removed", "C06", ABS, "                        if message_pairing[1].time + possible_correction > possible_next_pairing[0].time:\n                            valid_durations.remove(note_value)", "                        if message_pairing[1].time + possible_correction > possible_next_pairing[0].time:\n                            pass", {"NEXT"}),
+    ("c02-note-value-not-forced-int", "C02", TOKF, "                msg_value = int(msg_value)\n", "", {"NK2"}),
     ("c09-alias-input", "C09", SEQ, "sequences = [sequence for sequence in sequences_input]", "sequences = sequences_input", {"PURE"}),
     ("c09-half-length", "C09", SEQ, "length_bar = int(PPQN * (current_ts_numerator / (current_ts_denominator / 4)))", "length_bar = int(PPQN * (current_ts_numerator / (current_ts_denominator / 2)))", {"LEN"}),
     ("c09-swapped-sig", "C09", SEQ, "Bar(sequence_to_add, current_ts_numerator, current_ts_denominator,", "Bar(sequence_to_add, current_ts_denominator, current_ts_numerator,", {"SIG"}),
@@ -893,6 +901,66 @@ def _independent_seeds(ctx: Ctx, base: set) -> dict:
     return out
 
 
+def _apply_patch_in_memory(program: Program, patch_path: str) -> Program | None:
+    """The program with a unified diff applied to in-memory copies of the files it touches, or None if it does not apply."""
+    import os
+    import re
+    import shutil
+    import subprocess
+    import tempfile
+    text = open(patch_path).read()
+    touched = re.findall(r"^\+\+\+ b/(\S+)", text, flags=re.M)
+    tmp = tempfile.mkdtemp(prefix="scoda_patch_")
+    try:
+        for t in touched:
+            if t not in program.sources:
+                return None
+            os.makedirs(os.path.dirname(os.path.join(tmp, t)), exist_ok=True)
+            with open(os.path.join(tmp, t), "w") as f:
+                f.write(program.sources[t])
+        r = subprocess.run(["git", "apply", "--unsafe-paths", patch_path], cwd=tmp, capture_output=True, text=True,
+                           env={**os.environ, "GIT_CEILING_DIRECTORIES": tmp, "GIT_DIR": os.path.join(tmp, ".nogit")})
+        if r.returncode != 0:
+            return None
+        var = program
+        for t in touched:
+            var = var.with_source(t, open(os.path.join(tmp, t)).read())
+        return var
+    except Exception:
+        return None
+    finally:
+        shutil.rmtree(tmp, ignore_errors=True)
+
+
+def _equivalent_patches(ctx: Ctx, base: set) -> dict:
+    """Behaviour-preserving changes kept as patches under /verif/equivalents/ (first line `# props: Cxx Cyy`): the check must
+    stay silent on each."""
+    import glob
+    import os
+    from .report import VERIF
+    out = {"total": 0, "silent": [], "not_silent": [], "skipped_patch_does_not_apply": []}
+    for path in sorted(glob.glob(os.path.join(VERIF, "equivalents", "*.diff"))):
+        head = open(path).readline()
+        if not head.startswith("# props:") or ctx.prop not in head.split(":", 1)[1].split():
+            continue
+        name = os.path.basename(path)[:-5]
+        var = _apply_patch_in_memory(ctx.p, path)
+        if var is None:
+            out["skipped_patch_does_not_apply"].append(name)
+            continue
+        out["total"] += 1
+        try:
+            c2, err = _run(var, ctx.prop)
+            newf = [f for f in c2.findings if f.key not in base]
+        except Exception as e:
+            newf, err = [], f"{type(e).__name__}: {e}"
+        if newf or err:
+            out["not_silent"].append({"patch": name, "false_alarms": [f"{f.rule}: {f.construct[:80]}" for f in newf[:3]], "analysis_error": (err or "")[:120]})
+        else:
+            out["silent"].append(name)
+    return out
+
+
 def run(ctx: Ctx) -> None:
     global _BASE
     import multiprocessing as mp
@@ -961,6 +1029,7 @@ def run(ctx: Ctx) -> None:
     indep = _independent_seeds(ctx, base)
     ctx.extra["selfcheck"] = {
         "independent_seeded_changes": indep,
+        "equivalent_patches": _equivalent_patches(ctx, base),
         "seeded_breaks": {"total": len(detected) + len(missed) + len(errors), "detected": len(detected), "missed": missed,
                           "analysis_error_instead": errors, "skipped_anchor_missing": skipped, "detail": detected},
         "behaviour_preserving_rewrites": {"total": len(silent) + len(noisy), "silent": len(silent), "not_silent": noisy},
